@@ -540,14 +540,22 @@ def gen_dag(rng, n_init=None, n_pipe=None, n_strm=None, raw_ok=True):
 
     others = [t for t in things if t[0] != "init"]
     rng.shuffle(others)
+    def kind_of(t, r):
+        """mostly plain callables; sometimes the Pipeline object of a pipeline of lower rank (obtained with get_value in
+        whatever component this lands in, i.e. possibly before that pipeline has a source: finding F17)"""
+        av = [v for v in pipes if v != t[1] and pipe_rank(v) < r]
+        if av and rng.random() < 0.15:
+            return f"pipe:v{rng.choice(av)}"
+        return rng.choice(["func", "method", "named"])
+
     for t in others:
         r = rank[t]
         if t[0] == "src":
             rc, rv, rs = pick_reqs(r, dens)
-            home()["setup"].append(["src", f"v{t[1]}", rng.choice(["func", "method", "named"]), rc, rv, rs])
+            home()["setup"].append(["src", f"v{t[1]}", kind_of(t, r), rc, rv, rs])
         elif t[0] == "mod":
             rc, rv, rs = pick_reqs(r, dens)
-            home()["setup"].append(["mod", f"v{t[1]}", rng.choice(["func", "method", "named"]), rc, rv, rs])
+            home()["setup"].append(["mod", f"v{t[1]}", kind_of(t, r), rc, rv, rs])
         elif t[0] == "strm":
             home()["setup"].append(["strm", f"s{t[1]}", crn[t[1]]])
         else:
@@ -556,6 +564,11 @@ def gen_dag(rng, n_init=None, n_pipe=None, n_strm=None, raw_ok=True):
             names = cols[t]
             home()["setup"].append(["raw", "column" if names else rng.choice(["column", "stream", "value"]), list(names), deps])
     comps += plain
+    # get_value of an existing pipeline, or of one nobody sources or modifies (it still becomes a `value` resource)
+    for _ in range(rng.choice([0, 0, 0, 1, 2])):
+        rng.choice(comps)["setup"].append(["getv", rng.choice([f"v{v}" for v in pipes] + ["vg0", "vg1"])])
+    if rng.random() < 0.1:
+        _add_req(rng.choice(list(by_init.values())), "rv", rng.choice(["vg0", "vg1"]))
     # the initializer op of an explicit component goes to a random place among its setup ops
     for c in comps:
         rng.shuffle(c["setup"])
@@ -1037,13 +1050,14 @@ class C09(Prop):
                                                                 f"{ncalls} initializer calls: {[c[0] for cr in run['creations'] for c in cr['calls']][:12]}"})
             return f
         if err is not None:
-            if ncalls and err[0] in ("create", "birth"):
-                last = run["creations"][-1]
-                if last["calls"]:
-                    f.append({"sig": "partial-creation", "msg": f"{where}: {err} after {[c[0] for c in last['calls']]} had run"})
-            if A["double_init"]:
-                return f
-            return f        # a valid program refused before any initializer ran: nothing of the property is violated
+            # a valid program: the only error the property tolerates is a refusal before anything ran
+            last = run["creations"][-1] if run["creations"] else None
+            if last is not None and last["calls"]:
+                f.append({"sig": "partial-creation", "msg": f"{where}: {err} after {[c[0] for c in last['calls']]} had run"})
+            elif err[0] == "birth" or (err[0] == "create" and err[1] != "ResourceError"):
+                f.append({"sig": "creation-failed", "msg": f"{where}: valid declarations, yet creating simulants raised {err} "
+                                                            f"(creation #{len(run['creations']) - 1}) before the probe initializers were called"})
+            return f
         probes = [t for t in A["inits"] if t not in (PM, CLOCK)]
         total = 0
         for k, cr in enumerate(run["creations"]):
